@@ -10,6 +10,8 @@
                                   by the translated helper only when an operand of the division is out of range); the rational is the
                                   exact value of the expression (division, integral form or decimal floating constant)
      b2b <n> / fit <w>         -> ok <n> | ok none
+     rule                      -> ok limit|exact   which rule selects the division form (regenerated fact float_rule)
+     exact <z>                 -> ok <0|1>         the integer is exactly representable as a double (exact64)
      tableok                   -> ok <0|1>      (table_ok && emit_ok)
      sto <c|cpp> <b|u|s|f|v> <w> <s|t>  -> ok <declared storage type|none> sat=<1|0|none>
      port <c|cpp|py> <n|none>  -> ok <n|none|?>   the fixed port id the target exports (emit condition of the template scan) *)
@@ -130,6 +132,8 @@ let handle (line : string) : string =
       let so = function Some z -> string_of_z z | None -> "none" in
       Printf.sprintf "ok c64=%s rn64=%s c32=%s rn32=%s p32=%s exact=%s cert=%s" (so c64) (string_of_z rn64) (so c32) (string_of_z rn32)
         (string_of_z p32) (if exact then "1" else "0") (if cert then "1" else "0")
+    | "rule" -> (match float_rule with DivIfBelowLimit -> "ok limit" | DivIfExactOperands -> "ok exact")
+    | "exact" -> if not (is_dec toks.(1)) then raise (Bad "invalid_arg"); if exact64 (z_of_string toks.(1)) then "ok 1" else "ok 0"
     | "names" ->
       (* names <full_name> <major> <minor> -> ok <_FULL_NAME_> <_FULL_NAME_AND_VERSION_> *)
       let m = { tm_full_name = str_of_string toks.(1); tm_major = z_of_string toks.(2); tm_minor = z_of_string toks.(3) } in
